@@ -36,7 +36,7 @@ OBJ_STARTS = {
     "missing": [C("tag", "p1", "a")],
 }
 OBJ_MENU = [C("store", "p1", "a", "none"), C("store", "p1", "b", "none"),
-            C("store", "p2", "a", "none"), C("storenp", c="a"),
+            C("store", "p2", "a", "none"), C("store", "p2", "a", "badsum"), C("storenp", c="a"),
             C("tag", "p1", "a"), C("tag", "p1", "b"), C("tag", "p2", "a"),
             C("delete", "p1"), C("delete", "p2"),
             C("dii", c="a", val="badsum"), C("dii", c="a", val="good")]
@@ -82,6 +82,10 @@ META_QUICK = [
     ("present", [C("putmeta", "p1", fmt="f2", ver="v2"), C("delmeta", "p1", fmt="nofmt")]),
     ("present", [C("putmeta", "p1", fmt="f2", ver="v2"), C("delmeta", "p1", fmt="fD")]),
     ("present", [C("delete", "p1"), C("getmeta", "p1", fmt="fD")]),
+    # different documents: must not interfere at all
+    ("present", [C("putmeta", "p1", fmt="fD", ver="v2"), C("putmeta", "p1", fmt="f2", ver="v1")]),
+    ("absent", [C("putmeta", "p1", fmt="fD", ver="v2"), C("putmeta", "p2", fmt="fD", ver="v1")]),
+    ("present", [C("putmeta", "p2", fmt="fD", ver="v2"), C("delmeta", "p1", fmt="nofmt")]),
 ]
 
 
@@ -134,7 +138,8 @@ def scenarios(family, tier, mode="th"):
 
     if family == "C07":
         qmenu = [C("store", "p1", "a", "none"), C("store", "p2", "a", "none"),
-                 C("store", "p1", "b", "none"), C("tag", "p1", "a"), C("tag", "p2", "a"),
+                 C("store", "p1", "b", "none"), C("store", "p2", "a", "badsum"),
+                 C("tag", "p1", "a"), C("tag", "p2", "a"),
                  C("delete", "p1"), C("delete", "p2"), C("dii", c="a", val="badsum")]
         use = qmenu if tier == "quick" else menu
         for start in starts:
@@ -155,13 +160,24 @@ def scenarios(family, tier, mode="th"):
     # wrong-wakeup triples: one holder, one waiter on the same identifier, and a third call on
     # ANOTHER identifier of the same lock table whose release notifies the shared condition
     if family == "C07":
+        # cid table: waiter = tag / delete / delete_if_invalid
         add("p1a", [C("delete", "p1"), C("tag", "p2", "a"), C("store", "p3", "b", "none")], pb=2)
+        add("p1a", [C("tag", "p2", "a"), C("delete", "p1"), C("store", "p3", "b", "none")], pb=2)
+        add("p1a", [C("delete", "p1"), C("dii", c="a", val="badsum"), C("store", "p3", "b", "none")], pb=2)
+        # object-pid table: waiter = delete
         add("empty", [C("store", "p1", "a", "none"), C("delete", "p1"),
                       C("store", "p2", "b", "none")], pb=2)
+        # reference-pid table: waiter = tag / delete
         add("empty", [C("tag", "p1", "a"), C("tag", "p1", "b"), C("tag", "p2", "b")], pb=2)
+        add("empty", [C("tag", "p1", "a"), C("delete", "p1"), C("tag", "p2", "b")], pb=2)
     else:
+        # document table: waiter = store_metadata / delete_metadata(format) / delete_metadata(all)
         add("absent", [C("putmeta", "p1", fmt="fD", ver="v1"), C("putmeta", "p1", fmt="fD", ver="v2"),
                        C("putmeta", "p1", fmt="f2", ver="v2")], pb=2)
+        add("present", [C("delmeta", "p1", fmt="fD"), C("delmeta", "p1", fmt="fD"),
+                        C("putmeta", "p1", fmt="f2", ver="v2")], pb=2)
+        add("present", [C("putmeta", "p1", fmt="fD", ver="v2"), C("delmeta", "p1", fmt="nofmt"),
+                        C("putmeta", "p1", fmt="f2", ver="v2")], pb=2)
     if tier == "thorough":
         tri = quick[:8]
         for start, calls in tri:
